@@ -12,6 +12,7 @@ Native driver of the C07 (HAB container) model.  One request per line:
 -/
 import Driver.Proto
 import SpsdkVerif.Model.Hab
+import SpsdkVerif.Model.HabWF
 import SpsdkVerif.Spec.HabRom
 import SpsdkVerif.Crypto.Exec
 open SpsdkVerif Driver
@@ -62,6 +63,7 @@ def step : List String → String
           "ok:" ++ toHex (exportImage c b) ++ ";" ++ sha b.msgData ++ ";" ++ sha b.msgCsf ++ ";" ++ toString b.attempts
             ++ ";" ++ blocksStr (if isAuth c.flags then c.signedBlocks else []) ++ ";"
             ++ blocksStr (if isEnc c.flags then c.encryptedBlocks else [])
+            ++ ";vis=" ++ boolStr (decide (AppVisible c b.app))
             ++ ";rt=" ++ boolStr (decide (parse (exportImage c b) = .ok (expectedParse c b)))
     | _, _, _, _, _, _, _, _, _, _, _, _, _, _, _ => "bad-op"
   | ["parse", img] =>
